@@ -102,3 +102,61 @@ def header_terms(ctx, I_out=None):
 
 RECORD_NO_INLINE = (B + '.collect_data_block', B + '._make_header', B + '._header_add_from_template',
                     B + '._header_add_from_input_header', B + '._header_populate_configuration')
+
+
+def agree_ref(ctx, fi, ref_src, title, what=('return', 'heap', 'substores'), rule='AGREE', **runkw):
+    """Compare a function with a reference transcription of the property's definition evaluated by
+    the same interpreter: return value, final values of self attributes, and subscript stores
+    (buffer fills) pairwise in program order."""
+    from vstatic import terms as T
+    r, I = ctx.run(fi, **dict(runkw))
+    rr, IR = ctx.run_ref(fi, ref_src, **dict(runkw))
+    if 'return' in what:
+        ctx.formula(rule, f'{title}: returned value == reference definition', fi, r.ret, rr.ret, node=fi.node,
+                    construct=f'return {fi.name}')
+    if 'heap' in what:
+        keys = sorted({k for k in list(I.heap) + list(IR.heap) if k[0] == sym('self').key})
+        for k in keys:
+            a = I.heap.get(k, T.mk_attr(sym('self'), k[1]))
+            b = IR.heap.get(k, T.mk_attr(sym('self'), k[1]))
+            st = [e for e in I.events if e.kind == 'store' and e.data.get('target') == 'attr' and e.data.get('name') == k[1]]
+            ctx.formula(rule, f'{title}: self.{k[1]} at exit == reference definition', fi, a, b,
+                        node=(st[-1].node if st else fi.node), construct=f'self.{k[1]} at exit')
+    if 'substores' in what:
+        sa = [e for e in I.events if e.kind == 'store' and e.data.get('target') == 'sub' and e.func.short == fi.short]
+        sb = [e for e in IR.events if e.kind == 'store' and e.data.get('target') == 'sub']
+        if len(sa) != len(sb):
+            ctx.ob(rule, f'{title}: same number of buffer stores as the reference', fi, False,
+                   {'code': [e.text() for e in sa], 'reference': [e.text() for e in sb]}, node=fi.node,
+                   construct='subscript stores')
+        else:
+            for ea, eb in zip(sa, sb):
+                ctx.formula(rule, f'{title}: index of buffer store == reference', fi, ea.data['key'], eb.data['key'],
+                            node=ea.node, construct=ea.text() + ' [index]')
+                ctx.formula(rule, f'{title}: value of buffer store == reference', fi, ea.data['value'], eb.data['value'],
+                            node=ea.node, construct=ea.text() + ' [value]')
+    return (r, I), (rr, IR)
+
+
+def who_writes(ctx, attr, allowed, cls_family=None):
+    """WHOWRITES: functions that store `.attr` (any receiver) must be within `allowed` (short quals)."""
+    import ast
+    writers = {}
+    for fi in ctx.prog.functions.values():
+        if isinstance(fi.node, ast.Lambda):
+            continue
+        for n in ast.walk(fi.node):
+            hit = False
+            if isinstance(n, ast.Attribute) and n.attr == attr and isinstance(n.ctx, (ast.Store, ast.Del)):
+                hit = True
+            elif isinstance(n, ast.Call) and isinstance(n.func, ast.Name) and n.func.id == 'setattr' and len(n.args) >= 2 \
+                    and isinstance(n.args[1], ast.Constant) and n.args[1].value == attr:
+                hit = True
+            elif isinstance(n, ast.Subscript) and isinstance(n.ctx, (ast.Store, ast.Del)) and \
+                    isinstance(n.value, ast.Attribute) and n.value.attr == attr:
+                hit = True
+            if hit:
+                owner = ctx.prog.enclosing_function(fi.module, n) or fi
+                if owner is fi:
+                    writers.setdefault(fi.short, n)
+    return writers
